@@ -40,6 +40,8 @@ struct Frame {
 struct Thread {
     frames: Vec<Frame>,
     pc: usize,
+    /// where the instruction executed before the current one was written (knot, stitch)
+    prev_scope: (String, String),
 }
 
 #[derive(Clone, Debug)]
@@ -52,6 +54,10 @@ struct FnFrame {
 #[derive(Clone, Debug)]
 struct GenChoice {
     id: usize,
+    /// where the flow was just before the choice was generated: the text and conditions of a choice are evaluated
+    /// at the choice itself, but a bare fallback (`* ->`) has nothing to evaluate, so for it this is whatever ran
+    /// before - possibly the divert that entered the knot
+    from_scope: (String, String),
     text: String,
     tags: Vec<String>,
     invisible: bool,
@@ -164,7 +170,7 @@ impl Refint {
             r.globals.insert(n.clone(), v);
         }
         let start = r.ir.label_pos[r.ir.entries[""]];
-        r.threads.push(Thread { frames: vec![Frame { kind: FrameKind::Flow, temps: BTreeMap::new(), ret_pc: 0 }], pc: start });
+        r.threads.push(Thread { frames: vec![Frame { kind: FrameKind::Flow, temps: BTreeMap::new(), ret_pc: 0 }], pc: start, prev_scope: (String::new(), String::new()) });
         r
     }
 
@@ -394,6 +400,13 @@ impl Refint {
 
     /// the flow goes from an instruction in `from` (knot, stitch) to the start of a knot or stitch
     fn enter(&mut self, from: &(String, String), target: &str) -> E<usize> {
+        // a labelled gather: the flow continues at the gather (which counts itself); knots and stitches are not
+        // re-entered, the label lies inside the one the flow is in
+        let as_label = self.ir.label_paths.get(target).cloned().unwrap_or_else(|| target.to_string());
+        if let Some(l) = self.ir.label_entries.get(&as_label).copied() {
+            self.note("divert-to-labelled-gather");
+            return Ok(self.ir.label_pos[l]);
+        }
         // a bare name may be a stitch of the knot the flow is in
         let qualified;
         let target = if !self.ir.entries.contains_key(target) && self.ir.entries.contains_key(&format!("{}.{}", from.0, target)) {
@@ -728,12 +741,23 @@ impl Refint {
         if thread.frames.len() > 1 {
             self.note("choice-generated-in-tunnel");
         }
-        self.choices.push(GenChoice { id, text, tags, invisible: info.fallback, thread });
+        let from_scope = if info.fallback && info.conds.is_empty() { self.threads.last().unwrap().prev_scope.clone() } else { scope.clone() };
+        self.choices.push(GenChoice { id, from_scope, text, tags, invisible: info.fallback, thread });
         Ok(())
     }
 
     fn take(&mut self, c: GenChoice) {
         let key = self.ir.choices[c.id].count_key.clone();
+        // taking a choice is a move to its content: knot and stitch count if the flow was outside them just before
+        // the choice was generated (only a bare fallback written first in its knot can be in that situation)
+        let target = self.ir.scope_of[c.thread.pc].clone();
+        if c.from_scope.0 != target.0 && !target.0.is_empty() {
+            self.count(&target.0.clone());
+            self.note("knot-counted-again-by-a-fallback-written-first");
+        }
+        if !target.1.is_empty() && c.from_scope != target {
+            self.count(&format!("{}.{}", target.0, target.1));
+        }
         self.threads = vec![c.thread];
         self.choices.clear();
         self.count(&key);
@@ -787,6 +811,8 @@ impl Refint {
                     self.threads.last_mut().unwrap().pc = pc + 1;
                     let mut th = self.threads.last().unwrap().clone();
                     th.pc = self.enter(&scope, t)?;
+                    th.prev_scope = scope.clone();
+                    self.threads.last_mut().unwrap().prev_scope = scope.clone();
                     self.threads.push(th);
                     continue;
                 }
@@ -844,7 +870,11 @@ impl Refint {
                 }
                 return Ok(());
             }
-            self.threads.last_mut().unwrap().pc = next;
+            // (after a tunnel return the flow is back at the call: that is where it "was" for whatever comes next)
+            let prev = if matches!(ir.code[pc], Ins::TunnelReturn) { ir.scope_of[next].clone() } else { scope };
+            let th = self.threads.last_mut().unwrap();
+            th.pc = next;
+            th.prev_scope = prev;
         }
     }
 
